@@ -105,6 +105,8 @@ def main():
                     shutil.copy(src, os.path.join(out, 'replays', f))
         open(os.path.join(out, 'check.log'), 'w').write(o[-6000:])
         shutil.rmtree(alt, ignore_errors=True)
+        # translators write into the shared coq/Generated even for a scratch copy: put /repo's versions back
+        subprocess.run('git -C /verif checkout -- coq/Generated', shell=True)
     finally:
         shutil.rmtree(d, ignore_errors=True)
     finish(res, out)
